@@ -121,6 +121,12 @@ func selected(o *Obligation, prop string, kinds []string) bool {
 			in = true
 		}
 	}
+	// "all" really is all: an obligation is proved under the ones asserted before it on the same path, so a
+	// check that skipped the clauses tagged for other properties could pass on a tree where one of those fails
+	// and thereby props up a clause of this property
+	if containsStr(kinds, "all") {
+		return true
+	}
 	if len(o.Tags) > 0 {
 		for _, t := range o.Tags {
 			if t == prop {
@@ -496,6 +502,8 @@ func runCheck(id, tier string, seed int) int {
 		"contracts_digest":          C.Digest,
 		"contract_files":            relFiles(C.Files),
 		"bounded_checks":            boundedOut,
+		"cache_hits":                cacheHits,
+		"cache_note":                "answers 'unsat' for byte-identical queries are reused for at most GOVC_CACHE_TTL seconds (default 3600) across the checks of different properties; every verification condition is still regenerated from /repo's working tree on every run; the thorough tier never uses the cache",
 		"stale_known_findings":      staleKnown,
 		"vacuity_guards":            map[string]any{"cover_checks": coverTotal, "proved_satisfiable": coverSat, "refuted": 0, "note": "a cover check asks the solvers whether the precondition / the function exit is reachable under all assumptions; 'unsat' would mean a contradictory contract and fails the check; with quantified assumptions the solvers usually answer 'unknown', which is tolerated"},
 		"explanation":               "each obligation is one SMT query generated from the SSA of /repo's current working tree and the //@ contracts; discharged = unsat",
